@@ -64,8 +64,43 @@ class V(SV):
 
 
 class SSet(SV):
-    def __init__(self, arr):
-        self.arr = arr
+    """a set given by the sequence of its elements (membership = seq.contains), optionally
+    minus the elements of a second sequence; no arrays, lambdas or quantifiers"""
+    def __init__(self, inc=None, exc=None, pred=None):
+        # either sequence-backed (inc, optional exc) or given by a membership predicate
+        # (a meta-level function  Val term -> Bool term), e.g. a specification predicate
+        self.inc, self.exc, self.pred = inc, exc, pred
+
+    def mem(self, k):
+        if self.pred is not None:
+            return self.pred(k)
+        m = z3.Contains(self.inc, z3.Unit(k))
+        if self.exc is not None:
+            m = z3.And(m, z3.Not(z3.Contains(self.exc, z3.Unit(k))))
+        return m
+
+    def plain(self):
+        if self.exc is not None or self.pred is not None:
+            raise Unsupported('a set given by a predicate/difference used where its element sequence is needed')
+        return self.inc
+
+    def added(self, x):
+        if self.pred is None and self.exc is None:
+            return SSet(z3.Concat(self.inc, z3.Unit(x)))
+        old = self
+        return SSet(pred=lambda k: z3.Or(k == x, old.mem(k)))
+
+    def union(self, other):
+        if self.pred is None and self.exc is None and other.pred is None and other.exc is None:
+            return SSet(z3.Concat(self.inc, other.inc))
+        a, b = self, other
+        return SSet(pred=lambda k: z3.Or(a.mem(k), b.mem(k)))
+
+    def minus(self, other):
+        if self.pred is None and self.exc is None and other.pred is None and other.exc is None:
+            return SSet(self.inc, other.inc)
+        a, b = self, other
+        return SSet(pred=lambda k: z3.And(a.mem(k), z3.Not(b.mem(k))))
 
 
 class SDict(SV):
@@ -164,8 +199,8 @@ class Engine:
         self._declare_specs()
 
     # -- spec functions ------------------------------------------------------
-    KIND_SORT = {'val': Val, 'str': vl.String, 'int': vl.Int, 'list': Val, 'tuple': Val, 'node': Val,
-                 'set': SetVal, 'Model': vl.ModelS, 'bool': vl.Bool, 'zint': vl.Int, 'zstr': vl.String,
+    KIND_SORT = {'val': Val, 'str': vl.String, 'int': vl.Int, 'list': SeqVal, 'tuple': SeqVal, 'node': Val,
+                 'set': SeqVal, 'Model': vl.ModelS, 'bool': vl.Bool, 'zint': vl.Int, 'zstr': vl.String,
                  'seq': SeqVal, 'map': vl.MapVal}
 
     def _spec_calls(self, c):
@@ -192,10 +227,11 @@ class Engine:
         for name, c in self.sidecar.specs.items():
             sorts = [self.KIND_SORT[ty] for _, ty in c.params]
             ret = self.KIND_SORT[c.ret or 'val']
+            # ('sp_' keeps specification names clear of SMT-LIB theory symbols such as `select`)
             if c.options.get('uninterpreted') or name in self.inline_specs:
-                f = z3.Function(name, *(sorts + [ret]))
+                f = z3.Function('sp_' + name, *(sorts + [ret]))
             else:
-                f = z3.RecFunction(name + sfx, *(sorts + [ret]))
+                f = z3.RecFunction('sp_' + name + sfx, *(sorts + [ret]))
             self.spec_funcs[name] = (f, [ty for _, ty in c.params], c.ret or 'val')
         for name, c in self.sidecar.specs.items():
             if c.options.get('uninterpreted') or name in self.inline_specs:
@@ -210,14 +246,18 @@ class Engine:
             ex.module = None
             body = ex.merge_block([s for s in c.fn.body
                                    if not (isinstance(s, ast.Expr) and isinstance(s.value, ast.Constant))])
-            z3.RecAddDefinition(f, params, z3.simplify(self.unwrap_kind(body, retk)))
+            z3.RecAddDefinition(f, params, vl.simp(self.unwrap_kind(body, retk)))
 
     def wrap_kind(self, z, ty):
         if ty == 'str':
             return V(VStr(z))
         if ty == 'int':
             return V(VInt(z))
-        if ty in ('val', 'list', 'tuple', 'node'):
+        if ty == 'list':
+            return V(VList(z))
+        if ty == 'tuple':
+            return V(VTuple(z))
+        if ty in ('val', 'node'):
             return V(z)
         if ty == 'set':
             return SSet(z)
@@ -238,12 +278,16 @@ class Engine:
             return get_s(as_val(sv))
         if ty == 'int':
             return get_i(as_val(sv))
-        if ty in ('val', 'list', 'tuple', 'node'):
+        if ty == 'list':
+            return vl.simp(get_elems(as_val(sv)))
+        if ty == 'tuple':
+            return vl.simp(get_items(as_val(sv)))
+        if ty in ('val', 'node'):
             return as_val(sv)
         if ty == 'set':
             if not isinstance(sv, SSet):
                 raise Unsupported('expected a set')
-            return sv.arr
+            return sv.plain()
         if ty == 'Model':
             if not isinstance(sv, SModel):
                 raise Unsupported('expected a model')
@@ -259,7 +303,7 @@ class Engine:
         raise Unsupported('kind ' + ty)
 
     # -- parameters of a function under contract ---------------------------------------
-    def make_param(self, name, ty, assume):
+    def make_param(self, name, ty, assume, ex=None):
         """Fresh symbolic parameter of declared type *ty*; type invariants are
         added through *assume* (they are preconditions)."""
         if ty == 'str':
@@ -286,8 +330,13 @@ class Engine:
             v = fresh(name, Val)
             assume(z3.Or(is_none(v), is_str(v), is_int(v), is_float(v)))
             return V(v)
+        if ty in ('optlist', 'optdict', 'optodict') and ex is not None:
+            if ex.branch(fresh(name + '_is_none', vl.Bool)):
+                return V(VNone)
+            return self.make_param(name, {'optlist': 'list', 'optdict': 'dict', 'optodict': 'odict'}[ty], assume, ex)
         if ty == 'set':
-            return SSet(fresh(name, SetVal))
+            f = z3.Function('set_%s!%d' % (name, next(_counter)), Val, vl.Bool)
+            return SSet(pred=lambda k, f=f: f(k))
         if ty == 'Model':
             return SModel(fresh(name, vl.ModelS))
         if ty == 'dict':
@@ -332,7 +381,7 @@ def as_bool(sv):
         t = sv.t
         if z3.is_app(t) and t.decl().name() == 'VBool':
             return t.arg(0)
-        return z3.simplify(truthy(t))
+        return vl.simp(truthy(t))
     if isinstance(sv, SSet):
         raise Unsupported('truthiness of a set')
     if isinstance(sv, SDict):
@@ -386,7 +435,7 @@ class Exec:
 
     # -- path control -------------------------------------------------------------
     def assume(self, cond):
-        cond = z3.simplify(cond)
+        cond = vl.simp(cond)
         if z3.is_true(cond):
             return
         if z3.is_false(cond):
@@ -394,16 +443,14 @@ class Exec:
         self.pc.append(cond)
 
     def feasible(self):
-        s = z3.Solver()
-        s.set('timeout', self.eng.feas_timeout_ms)
-        s.add(*self.pc)
-        return s.check() != z3.unsat
+        from . import solve
+        return solve.feasible_forked(self.pc, self.eng.feas_timeout_ms)
 
     def branch(self, cond):
         """fork on a z3 Bool; returns the Python bool taken on this path"""
         if self.spec_mode:
             raise Unsupported('branching inside a specification expression')
-        c = z3.simplify(cond)
+        c = vl.simp(cond)
         if z3.is_true(c):
             return True
         if z3.is_false(c):
@@ -414,7 +461,7 @@ class Exec:
             d = True
             self.trace.append(True)
         self.pos += 1
-        self.pc.append(c if d else z3.simplify(z3.Not(c)))
+        self.pc.append(c if d else vl.simp(z3.Not(c)))
         if not self.feasible():
             raise Infeasible()
         return d
@@ -422,7 +469,7 @@ class Exec:
     def oblige(self, kind, goal, label=None, info=None):
         if self.spec_mode:
             return
-        goal = z3.simplify(goal)
+        goal = vl.simp(goal)
         if z3.is_true(goal):
             return
         name = '%s:%s' % (self.fname, label or kind)
@@ -438,7 +485,7 @@ class Exec:
         otherwise it is a `safe` obligation."""
         if self.spec_mode:
             return
-        c = z3.simplify(cond)
+        c = vl.simp(cond)
         if z3.is_true(c):
             return
         if self.exc_expected(exc):
@@ -564,10 +611,7 @@ class Exec:
         return V(vlist([self.evv(x) for x in e.elts]))
 
     def ev_Set(self, e):
-        arr = vl.empty_set()
-        for x in e.elts:
-            arr = z3.Store(arr, self.evv(x), True)
-        return SSet(arr)
+        return SSet(seq_of([self.evv(x) for x in e.elts]))
 
     def ev_Dict(self, e):
         d = SDict(vl.empty_set(), z3.K(Val, VNone), vl.empty_seq())
@@ -615,7 +659,7 @@ class Exec:
         return self.ev(e.orelse)
 
     def ite(self, c, a, b):
-        c = z3.simplify(c)
+        c = vl.simp(c)
         if z3.is_true(c):
             return a
         if z3.is_false(c):
@@ -628,7 +672,7 @@ class Exec:
                 return V(ctor(z3.If(c, a.t.arg(0), b.t.arg(0))))
             return V(z3.If(c, a.t, b.t))
         if isinstance(a, SSet) and isinstance(b, SSet):
-            return SSet(z3.If(c, a.arr, b.arr))
+            return SSet(pred=lambda k: z3.If(c, a.mem(k), b.mem(k)))
         raise Unsupported('conditional over %s/%s' % (type(a).__name__, type(b).__name__))
 
     def ev_BoolOp(self, e):
@@ -659,6 +703,11 @@ class Exec:
         raise Unsupported('unary op')
 
     def ev_Compare(self, e):
+        if len(e.ops) > 1 and all(isinstance(o, ast.Is) for o in e.ops) and \
+                isinstance(e.comparators[-1], ast.Constant) and e.comparators[-1].value is None:
+            # a is b is c is None  <=>  every operand is None
+            vals = [self.ev(e.left)] + [self.ev(c) for c in e.comparators[:-1]]
+            return mk_bool(z3.And(*[is_none(as_val(v)) if isinstance(v, V) else z3.BoolVal(False) for v in vals]))
         left = self.ev(e.left)
         conj = []
         for op, right_e in zip(e.ops, e.comparators):
@@ -713,7 +762,8 @@ class Exec:
         if isinstance(a, V) and isinstance(b, V):
             return a.t == b.t
         if isinstance(a, SSet) and isinstance(b, SSet):
-            return a.arr == b.arr
+            k = fresh('k', Val)     # extensional: same members
+            return z3.ForAll([k], a.mem(k) == b.mem(k))
         if isinstance(a, SDict) and isinstance(b, SDict):
             return z3.And(a.dom == b.dom, self.dict_vals_equal(a, b))
         if isinstance(a, SModel) and isinstance(b, SModel):
@@ -752,7 +802,7 @@ class Exec:
         if isinstance(container, SFunc) and container.kind == 'modeltable':
             return self.model_table_has(container, as_val(item))
         if isinstance(container, SSet):
-            return z3.Select(container.arr, as_val(item))
+            return container.mem(as_val(item))
         if isinstance(container, SDict):
             return z3.Select(container.dom, as_val(item))
         if isinstance(container, V):
@@ -775,8 +825,7 @@ class Exec:
             return self.add(a, b, e)
         if isinstance(e.op, ast.Sub):
             if isinstance(a, SSet) and isinstance(b, SSet):
-                k = fresh('k', Val)
-                return SSet(z3.Lambda([k], z3.And(z3.Select(a.arr, k), z3.Not(z3.Select(b.arr, k)))))
+                return a.minus(b)
             x, y = as_val(a), as_val(b)
             self.safe(z3.And(is_int(x), is_int(y)), 'TypeError', '-', e)
             return V(VInt(get_i(x) - get_i(y)))
@@ -796,8 +845,7 @@ class Exec:
             return V(VInt(get_i(x) * get_i(y)))
         if isinstance(e.op, ast.BitOr):
             if isinstance(a, SSet) and isinstance(b, SSet):
-                k = fresh('k', Val)
-                return SSet(z3.Lambda([k], z3.Or(z3.Select(a.arr, k), z3.Select(b.arr, k))))
+                return a.union(b)
             x, y = as_val(a), as_val(b)
             # bool | bool and int | int (exit codes 0/1)
             if static_kind(x) == 'VBool' or static_kind(y) == 'VBool':
@@ -881,7 +929,7 @@ class Exec:
                 seq = z3.If(is_tuple(v), get_items(v), get_elems(v))
                 kind = 'seq'
         n = z3.Length(seq)
-        j = z3.simplify(z3.If(i < 0, i + n, i))
+        j = vl.simp(z3.If(i < 0, i + n, i))
         self.safe(z3.And(j >= 0, j < n), 'IndexError', 'index in range', node)
         if kind == 'str':
             return VStr(z3.SubString(seq, j, 1))
@@ -922,7 +970,7 @@ class Exec:
             return z3.If(is_none(x), default, r)
         lo = bound(sl.lower, z3.IntVal(0))
         hi = bound(sl.upper, n)
-        ln = z3.simplify(z3.If(hi > lo, hi - lo, 0))
+        ln = vl.simp(z3.If(hi > lo, hi - lo, 0))
         if kind == 'str':
             return V(VStr(z3.SubString(seq, lo, ln)))
         sub = z3.SubSeq(seq, lo, ln)
@@ -1010,7 +1058,7 @@ class Exec:
         raw = z3.Select(d.val, k)
         if d.vkind == 'set':
             if default:
-                return SSet(z3.If(z3.Select(d.dom, k), raw, vl.empty_set()))
+                return SSet(z3.If(z3.Select(d.dom, k), raw, vl.empty_seq()))
             return SSet(raw)
         if default:
             dv = {'list': VList(vl.empty_seq()), 'int': VInt(z3.IntVal(0))}[d.default]
@@ -1022,7 +1070,7 @@ class Exec:
         if d.vkind == 'set':
             if not isinstance(value, SSet):
                 raise Unsupported('dict of sets: non-set value')
-            n.val = z3.Store(d.val, k, value.arr)
+            n.val = z3.Store(d.val, k, value.plain())
         else:
             n.val = z3.Store(d.val, k, as_val(value))
         if d.keys is not None:
@@ -1311,7 +1359,7 @@ BUILTIN_NAMES = {'len', 'isinstance', 'str', 'list', 'set', 'dict', 'tuple', 're
                  # specification vocabulary
                  'implies', 'has', 'old', 'forall_idx', 'exists_idx', 'is_str', 'is_int', 'is_none',
                  'is_tuple', 'is_list', 'is_float', 'is_bool', 'is_obj', 'is_inst', 'in_re',
-                 'set_of_seq', 'set_add', 'set_union', 'subset', 'dict_has', 'dict_get', 'dict_keys',
+                 'set_of_seq', 'set_add', 'set_union', 'set_where', 'subset', 'dict_has', 'dict_get', 'dict_keys',
                  'mk', 'noop', 'norm_has', 'norm_get', 'reif_has', 'reif_get', 'dereif_has', 'dereif_get',
                  'top_role', 'aln_marker', 'aln_ok', 'str_of', 'json_dumps', 'keyof', 'key_le', 'seq_eq',
                  'is_atomic', 'last_index', 'fld', 'is_sorted_by', 'perm_of', 'multiset_eq'}
